@@ -1,12 +1,15 @@
 #!/bin/sh
-# usage: seedtest.sh <Cxx> <dir with patch.diff> [tier]  — applies the seeded change to /repo, runs the check, undoes it.
+# usage: seedtest.sh <Cxx> <dir with patch.diff> [tier]  — applies the seeded change to the repository, runs the check, undoes it.
+# The repository is /repo, or $VERIF_REPO (a scratch snapshot, so that a long regression does not occupy /repo).
 # The evidence file is put back afterwards: committed evidence must describe a run against /repo itself.
 P=$1; D=$2; T=${3:-quick}
-cd /repo && git status --porcelain | grep -q . && { echo "/repo dirty"; exit 2; }
-git -C /repo apply "$D/patch.diff" || { echo "patch does not apply"; exit 2; }
-cp /verif/evidence/$P.json /tmp/.seedtest-evidence-$P.json 2>/dev/null
-cd /verif && ./check $P $T; rc=$?
-git -C /repo checkout -- . ; git -C /repo clean -fdq
-[ -f /tmp/.seedtest-evidence-$P.json ] && mv /tmp/.seedtest-evidence-$P.json /verif/evidence/$P.json
+R=${VERIF_REPO:-/repo}
+V=$(cd "$(dirname "$0")" && pwd)
+cd $R && git status --porcelain | grep -q . && { echo "$R dirty"; exit 2; }
+git -C $R apply "$D/patch.diff" || { echo "patch does not apply"; exit 2; }
+cp $V/evidence/$P.json $V/.seedtest-evidence-$P.json 2>/dev/null
+cd $V && ./check $P $T; rc=$?
+git -C $R checkout -- . ; git -C $R clean -fdq
+[ -f $V/.seedtest-evidence-$P.json ] && mv $V/.seedtest-evidence-$P.json $V/evidence/$P.json
 echo "seedtest $P rc=$rc"
 exit $rc
